@@ -5,11 +5,12 @@ Local Open Scope string_scope.
 Local Open Scope list_scope.
 
 (* the unverified pre-decoder on raw bytes: Decoder.Decode = Decoder.Token loop (token_view_with, by CharsetReader setting)
-   + struct decoding (Schema.v) *)
+   + struct decoding of that element as it was read (Schema.view_direct: no etree serialisation in between, so a U+000D
+   that came through a character reference stays) *)
 Definition predecode_bytes_with (c : charset_reader) (s : string) : res base_response :=
-  do root <- token_view_with c s; unmarshal_base_response root.
+  do root <- token_view_with c s; unmarshal_base_response_direct root.
 Definition predecode_logout_bytes_with (c : charset_reader) (s : string) : res logout_response :=
-  do root <- token_view_with c s; unmarshal_logout_response root.
+  do root <- token_view_with c s; unmarshal_logout_response_direct root.
 (* xmlUnmarshalDocument (pass-through CharsetReader): the pre-decoders of the repaired tree *)
 Definition predecode_bytes (s : string) : res base_response := predecode_bytes_with CsPassThrough s.
 Definition predecode_logout_bytes (s : string) : res logout_response := predecode_logout_bytes_with CsPassThrough s.
@@ -19,7 +20,8 @@ Definition predecode_logout_bytes_original (s : string) : res logout_response :=
 
 Theorem predecode_agrees_from_bytes dsig decrypt cfg now s tree r b :
   read_tree s = Ok tree ->                                         (* what parseResponse hands to validation *)
-  (forall raw, read_root_raw s = Ok (Some raw) -> well_formed_attrs raw = true) ->   (* no duplicated attribute names *)
+  (forall raw, read_root_raw s = Ok (Some raw) -> well_formed_attrs raw = true /\ cr_free raw = true) ->
+                                                 (* no duplicated attribute names; no U+000D through a character reference *)
   (cfg_skip_sig cfg = true \/ dsig tree = DMissing) ->
   validate_response_tree dsig decrypt cfg now tree = Ok r ->
   predecode_bytes s = Ok b ->
@@ -29,9 +31,33 @@ Proof.
   intros Ht Hwf Hpath Hv Hb.
   destruct (predecode_view_of_validated_tree s tree Ht) as (raw & Hview & Hraw & Hd).
   unfold predecode_bytes, predecode_bytes_with in Hb. change (token_view_with CsPassThrough s) with (token_view s) in Hb.
-  rewrite Hview in Hb. cbn [bind] in Hb. subst tree.
-  exact (predecode_agrees_when_root_unsigned dsig decrypt cfg now raw r b (Hwf raw Hraw) Hpath Hv Hb).
+  rewrite Hview in Hb. cbn [bind] in Hb. subst tree. destruct (Hwf raw Hraw) as [W C].
+  exact (predecode_direct_agrees_when_root_unsigned dsig decrypt cfg now raw r b W C Hpath Hv Hb).
 Qed.
+
+(* F13: the premise "no U+000D" cannot be dropped.  InResponseTo="_q&#13;x" on the root: the pre-decoder reports the value
+   with U+000D; validation decodes etree's RE-SERIALISATION of the element (xmlUnmarshalElement), which writes U+000D raw
+   (F8), and the second tokenizer pass turns it into U+000A -- [mechanism]: reading back what etree writes for the tree. *)
+Definition f13_doc : string :=
+  "<samlp:Response xmlns:samlp=""urn:oasis:names:tc:SAML:2.0:protocol"" ID=""_1"" InResponseTo=""_q&#13;x"" Version=""2.0""/>".
+Definition f13_cr_value : string := ("_q" ++ cr1 ++ "x")%string.      (* what &#13; denotes *)
+Definition f13_lf_value : string := ("_q" ++ lf1 ++ "x")%string.
+Definition f13_attrs (v : string) : list attr :=
+  [ {| at_space := "xmlns"; at_key := "samlp"; at_val := "urn:oasis:names:tc:SAML:2.0:protocol" |};
+    {| at_space := ""; at_key := "ID"; at_val := "_1" |};
+    {| at_space := ""; at_key := "InResponseTo"; at_val := v |};
+    {| at_space := ""; at_key := "Version"; at_val := "2.0" |} ].
+Theorem predecode_disagrees_on_cr_reference :
+  read_tree f13_doc = Ok (Elem "samlp" "Response" (f13_attrs f13_cr_value) []) /\
+  well_formed_attrs (Elem "samlp" "Response" (f13_attrs f13_cr_value) []) = true /\
+  cr_free (Elem "samlp" "Response" (f13_attrs f13_cr_value) []) = false /\
+  option_map br_in_response_to (match predecode_bytes f13_doc with Ok b => Some b | Err _ => None end) = Some f13_cr_value /\
+  option_map r_in_response_to
+    (match unmarshal_response (Elem "samlp" "Response" (f13_attrs f13_cr_value) []) with Ok r => Some r | Err _ => None end)
+    = Some f13_lf_value /\
+  read_tree (Build.etree_write (Elem "samlp" "Response" (f13_attrs f13_cr_value) []))
+    = Ok (Elem "samlp" "Response" (f13_attrs f13_lf_value) []).
+Proof. repeat split; vm_compute; reflexivity. Qed.
 
 (* ================================================================ the translated pre-decoders over the tokenizer model
    GenDeflate.v's xml.Unmarshal oracle (indexed by the CharsetReader setting the translator read off xmlUnmarshalDocument)
@@ -87,7 +113,7 @@ Qed.
 Theorem predecode_encoded_raw inflate enc s tree :
   b64_decode enc = Ok s -> read_tree s = Ok tree ->
   exists raw, read_root_raw s = Ok (Some raw) /\ dedupe raw = tree /\
-    (forall b, unmarshal_base_response raw = Ok b -> predecode_encoded inflate enc = Ok (Some b)).
+    (forall b, unmarshal_base_response_direct raw = Ok b -> predecode_encoded inflate enc = Ok (Some b)).
 Proof.
   intros Hb Ht. destruct (predecode_view_of_validated_tree s tree Ht) as (raw & Hview & Hraw & Hd).
   exists raw. split; [exact Hraw|]. split; [exact Hd|]. intros b Hu.
